@@ -659,6 +659,8 @@ Definition getattr_py (R : record) (wrapped : bool) (o : value) (a : string) : r
   | Some r => r
   | None => match o with
             | VRec => if wrapped then Val VMissing else Exc EAttributeError
+            | VMissing =>        (* NoneObject.__getattr__ (GENERATED fact): a missing field's attribute is missing too *)
+                if sentinel_attribute_is_sentinel then Val VMissing else Exc EAttributeError
             | _ => Exc EAttributeError
             end
   end.
